@@ -45,9 +45,9 @@ type c11Op struct {
 }
 
 type c11Case struct {
-	Ops   []c11Op `json:"ops,omitempty"`
-	Lang  []string `json:"inputs,omitempty"`
-	Big   bool    `json:"big_universe,omitempty"`
+	Ops  []c11Op  `json:"ops,omitempty"`
+	Lang []string `json:"inputs,omitempty"`
+	Big  bool     `json:"big_universe,omitempty"`
 }
 
 func c11Key(i int) (object.Object, gt.Val) {
